@@ -42,6 +42,17 @@ def run(ctx):
         ['in', lit(gen.vent('User', 'a')), lit(gen.vset([gen.vlong(7), gen.vstr('a'), gen.vbool(True)]))],
         ['call', S('decimal'), lit(gen.vstr('1.23456'))],
     ]
+    # `in` / `is..in` / containsAny... over sets that mix the left operand itself, other entities, ancestors and ONE non-entity value:
+    # every answer must be the same whichever member the map iteration meets first
+    ua, ga = gen.vent('User', 'a'), gen.vent('Group', 'a')
+    for lhs in (lit(ua), ['var', 'principal']):
+        for extra in ([gen.vlong(1)], [gen.vstr('x')], [gen.vlong(1), gen.vent('Group', 'b')], [gen.vset([])], []):
+            for members in ([ua], [ua, ga], [ga], [gen.vent('User', 'zz')], [ua, gen.vent('User', 'zz'), gen.vent('Doc', 'zz')]):
+                vals = members + extra
+                targeted.append(['in', lhs, lit(gen.vset(vals))])
+                targeted.append(['in', lhs, ['mkset'] + [lit(v) for v in vals]])
+                targeted.append(['isIn', lhs, S('User'), lit(gen.vset(vals))])
+                targeted.append(['in', lhs, ['access', ['mkrec', [S('s'), lit(gen.vset(vals))]], S('s')]])
     n = 0
     for e in targeted:
         n += 1
